@@ -122,6 +122,23 @@ func appCases(args []string) {
 			id++
 			w.Emit(appCase{ID: id, Mode: "c10", In: tr.Ints(in), Display: k >= 2, Record: k%2 == 1, Chunk: []int{0, 1, 5, 64}[k], Seed: rng.Int63(), Cls: "alltypes"})
 		}
+		// the same frame several times in a row (a base station repeats its description): every copy is output; and one
+		// input far larger than any internal buffer
+		{
+			f := gen.Frame(rng, 1006, 21, 0)
+			g := tr.Frame(gen.RandomMSM(rng, 1077, 7, 0, 0, 0).Encode())
+			id++
+			w.Emit(appCase{ID: id, Mode: "c10", In: tr.Ints(gen.Cat(f, f, f, g, g, gen.Junk(rng, 3, 1), f, g)), Display: true, Record: true, Chunk: 0, Seed: rng.Int63(), Cls: "identical frames repeated"})
+			var big []byte
+			for len(big) < 200000 {
+				big = append(big, gen.Frame(rng, gen.TypeClass(rng, len(big)), 1+rng.Intn(600), 0)...)
+				if rng.Intn(5) == 0 {
+					big = append(big, gen.Junk(rng, 1+rng.Intn(300), rng.Intn(3))...)
+				}
+			}
+			id++
+			w.Emit(appCase{ID: id, Mode: "c10", In: tr.Ints(big), Display: false, Record: true, Chunk: 4096, Seed: rng.Int63(), Cls: "200 kB"})
+		}
 		// other data that looks like the beginning of a frame (zero length, tiny length, reserved bits, maximum length)
 		// between valid frames: nothing of it may reach the output
 		for k, piece := range [][]byte{{0xd3, 0, 0, 0x41, 0x42}, {0xd3, 0, 0, 0, 0, 0}, {0xd3, 0, 1, 0x3e, 0x11, 0x22, 0x33}, {0xd3, 0xfc, 0x05, 1, 2, 3}, {0xd3, 0x03, 0xff, 0x3e, 0xd0}, {0xd3, 0xd3, 0, 0, 0xd3}} {
